@@ -120,6 +120,7 @@ func driverMain(args []string) {
 	var sums []phaseSum
 	var failures []*Scenario
 	var samples []*Scenario
+	var trouble []string // workers that stalled / crashed / lost their generator
 	digestLines := []string{}
 	variantsUsed := map[string]bool{}
 	sitesHit := map[string]map[uint32]bool{} // variant -> yield sites executed by any worker
@@ -193,12 +194,21 @@ func driverMain(args []string) {
 					if ctx.Err() != nil {
 						die("watchdog: wall-clock limit %v exceeded (%v)", limit, e)
 					}
-					die("%v", e)
+					// a worker that stalled, crashed or lost its generator is
+					// harness trouble (exit 2 in the end) - but what the OTHER
+					// workers and the earlier phases found is still evaluated: a
+					// violation that replays in a fresh process is a violation
+					// whatever else went wrong (a hang on a plain build is
+					// C04's to report; the corruption that precedes it is not)
+					trouble = append(trouble, e.Error())
 				}
 			}
 			ps := phaseSum{Name: ph.Name, Variant: variant, WallS: time.Since(pstart).Seconds()}
 			var ld uint64
 			for _, o := range outs {
+				if o == nil {
+					continue
+				}
 				ps.Runs += o.Runs
 				ps.Evals += o.Evaluations
 				total.Evaluations += o.Evaluations
@@ -246,6 +256,13 @@ func driverMain(args []string) {
 			digestLines = append(digestLines, fmt.Sprintf("%s seed=%d evals=%d log=%016x", ph.Name, sd, ps.Evals, ld))
 			sums = append(sums, ps)
 			fmt.Printf("phase %-12s variant=%-5s seed=%d runs=%d evaluations=%d failures_so_far=%d wall=%.1fs\n", ph.Name, variant, sd, ps.Runs, ps.Evals, len(failures), ps.WallS)
+			if len(trouble) > 0 {
+				break
+			}
+		}
+		if len(trouble) > 0 {
+			fmt.Printf("harness trouble in phase %s, later phases not run: %s\n", ph.Name, trunc(trouble[0], 600))
+			break
 		}
 	}
 	if *logDigests != "" {
@@ -428,6 +445,9 @@ func driverMain(args []string) {
 		"knob_seam":                         *knobSeam,
 		"known_findings_hit":                knownHits,
 	}
+	if len(trouble) > 0 {
+		cov["harness_trouble"] = trouble
+	}
 	if sc := siteCoverage(sitesHit, siteFiles); len(sc) > 0 {
 		cov["yield_site_reach"] = sc
 	}
@@ -463,6 +483,9 @@ func driverMain(args []string) {
 	fmt.Printf("done property=%s tier=%s evaluations=%d distinct_nontrivial=%d violations=%d known=%d wall=%.1fs\n", *prop, *tier, total.Evaluations, len(total.Digests), violations, knownHits, wall)
 	if violations > 0 {
 		os.Exit(1)
+	}
+	if len(trouble) > 0 {
+		die("%s", trouble[0])
 	}
 	if unrepro > 0 && knownHits == 0 {
 		die("harness defect: %d failure class(es) seen by workers did not reproduce in a fresh process and none did", unrepro)
